@@ -37,6 +37,10 @@ pub struct Pt {
     /// query the live generators (not a copy) for the current drawdown after this point
     #[serde(default)]
     pub query: bool,
+    /// balance layer: this many eighths of the total are locked in open orders (free < total);
+    /// position layer: entry price and size of the closed position vary with it
+    #[serde(default)]
+    pub locked: u8,
 }
 
 #[derive(Debug, Clone, Serialize, Deserialize)]
@@ -170,10 +174,11 @@ impl Check for DrawdownScan {
                 ],
                 prop_oneof![6 => Just(0i8), 2 => -1i8..=1, 1 => -9i8..=9],
                 prop::bool::weighted(0.15),
+                prop_oneof![2 => Just(0u8), 1 => 0u8..=8],
             ),
             1..max,
         )
-        .prop_map(|v| CurveCase { points: v.into_iter().map(|(dt, grid, perturb, query)| Pt { dt, grid, perturb, query }).collect() })
+        .prop_map(|v| CurveCase { points: v.into_iter().map(|(dt, grid, perturb, query, locked)| Pt { dt, grid, perturb, query, locked }).collect() })
         .boxed()
     }
 
@@ -230,18 +235,21 @@ impl Check for DrawdownScan {
 
         // ---- layer (c): TearSheetAssetGenerator over balances ----------------------------------
         {
+            // the drawdown curve of an asset is its TOTAL balance; part of it may be locked in orders
+            let bal_locked = |v: Decimal, eighths: u8| Balance::new(v, if v > Decimal::ZERO { v - v * Decimal::from(eighths.min(8)) / Decimal::from(8) } else { v });
             let bal = |v: Decimal| Balance::new(v, v);
-            let mut g = TearSheetAssetGenerator::init(&Timed::new(bal(pts[0].1), ts(pts[0].0)));
+            let mut g = TearSheetAssetGenerator::init(&Timed::new(bal_locked(pts[0].1, case.points[0].locked), ts(pts[0].0)));
             // a second generator that is asked for interim sheets while it keeps being updated
             let mut live = g.clone();
             let mut scan = Scan::new(pts[0].0, pts[0].1);
             for (i, (t, v)) in pts.iter().enumerate().skip(1) {
-                g.update_from_balance(Snapshot(&AssetBalance { asset: 0u8, balance: bal(*v), time_exchange: ts(*t) }));
-                live.update_from_balance(Snapshot(&AssetBalance { asset: 0u8, balance: bal(*v), time_exchange: ts(*t) }));
+                let b = bal_locked(*v, case.points[i].locked);
+                g.update_from_balance(Snapshot(&AssetBalance { asset: 0u8, balance: b, time_exchange: ts(*t) }));
+                live.update_from_balance(Snapshot(&AssetBalance { asset: 0u8, balance: b, time_exchange: ts(*t) }));
                 scan.step(*t, *v);
                 if case.points[i].query {
                     let sheet = live.generate();
-                    if sheet.drawdown.as_ref().map(conv) != scan.in_progress() || sheet.balance_end != Some(bal(*v)) {
+                    if sheet.drawdown.as_ref().map(conv) != scan.in_progress() || sheet.balance_end != Some(b) {
                         bad!("asset-sheet:interim-current-drawdown", "balance {i}: interim sheet of a live generator reports drawdown {:?} / balance_end {:?}, scan {:?} / {v} (curve {pts:?}, interim sheets after {:?})", sheet.drawdown, sheet.balance_end, scan.in_progress(), queries(case));
                     }
                 }
@@ -252,7 +260,7 @@ impl Check for DrawdownScan {
                 if sheet.drawdown.as_ref().map(conv) != scan.in_progress() {
                     bad!("asset-sheet:current-drawdown", "balance {i}: sheet drawdown {:?}, scan {:?}", sheet.drawdown, scan.in_progress());
                 }
-                if sheet.balance_end != Some(bal(*v)) {
+                if sheet.balance_end != Some(b) {
                     bad!("asset-sheet:balance-end", "balance {i}: balance_end {:?} != {v}", sheet.balance_end);
                 }
                 if let Err((sig, msg)) = check_max_mean(
@@ -276,8 +284,10 @@ impl Check for DrawdownScan {
                 let exited: PositionExited<QuoteAsset, u8> = PositionExited {
                     instrument: 0,
                     side: Side::Buy,
-                    price_entry_average: Decimal::from(100),
-                    quantity_abs_max: Decimal::ONE,
+                    // entry notional varies from position to position (returns are PnL / notional: a
+                    // curve of cumulative returns differs from the PnL curve)
+                    price_entry_average: Decimal::from(100 + 37 * (case.points[i].locked as u32 % 9)),
+                    quantity_abs_max: Decimal::new(1 + 7 * (case.points[i].locked as i64 % 5), 1),
                     pnl_realised: *v - prev,
                     fees_enter: AssetFees::quote_fees(Decimal::ZERO),
                     fees_exit: AssetFees::quote_fees(Decimal::ZERO),
@@ -364,7 +374,7 @@ impl Check for DrawdownScan {
 }
 
 pub fn run(ctx: &mut Ctx) {
-    ctx.rule = "drawdown_scan: 1..60|150 timed points, strictly increasing times, values from a small grid (1..7 mostly, up to 200, a few <= 0 after the first) with +-0.1 perturbations so that equal consecutive values, exact recoveries to the peak and new highs by one tick are common; first value > 0. Fed to DrawdownGenerator (default and init), Max/Mean generators, TearSheetAssetGenerator (balances) and TearSheetGenerator (cumulative PnL of closed positions), each compared after every point with an independent peak-to-trough scan; after 15% of the points the live generators themselves (not copies) are asked for the current drawdown / an interim tear sheet and keep being updated afterwards. non-trivial = >= 2 completed drawdowns and one in progress at the end; distinct by hash of the case.".into();
+    ctx.rule = "drawdown_scan: 1..60|150 timed points, strictly increasing times, values from a small grid (1..7 mostly, up to 200, a few <= 0 after the first) with +-0.1 perturbations so that equal consecutive values, exact recoveries to the peak and new highs by one tick are common; first value > 0. Fed to DrawdownGenerator (default and init), Max/Mean generators, TearSheetAssetGenerator (balances; a third of them with part of the total locked, free < total) and TearSheetGenerator (cumulative PnL of closed positions with varying entry price / size), each compared after every point with an independent peak-to-trough scan; after 15% of the points the live generators themselves (not copies) are asked for the current drawdown / an interim tear sheet and keep being updated afterwards. non-trivial = >= 2 completed drawdowns and one in progress at the end; distinct by hash of the case.".into();
     ctx.assumptions = vec![
         "running maxima are positive (first value > 0); later values may be <= 0".into(),
         "tear-sheet generate() is called once per generator clone, as the engine API does (generate folds the in-progress drawdown into max/mean)".into(),
